@@ -1,6 +1,6 @@
 #!/bin/bash
 # tools/runall.sh [tier] [seed] : run every claimed check once against $REPO (default /repo); one summary line each
-cd /verif
+cd "$(dirname "$(readlink -f "$0")")/.."
 TIER=${1:-quick}; export VERIF_SEED=${2:-0}
 for p in $(python3 -c "import json;print(' '.join(c['property_id'] for c in json.load(open('MANIFEST.json'))['checks']))"); do
   s=$(date +%s)
